@@ -348,7 +348,20 @@ def exec_search(ctx, parts):
 
 
 def corpus_modules_tagged():
-    return [(g, cases, "corpus") for g, cases in corpus_modules() if g.module.name != "c05_consts"]
+    """x86_64 corpus: the hand-made modules + the IR text files of corpus/C05 (past failing inputs)"""
+    from ppci import ir
+    from ppci.irutils import Reader
+    from . import irgen
+    out = [(g, cases, "corpus") for g, cases in corpus_modules() if g.module.name != "c05_consts"]
+    for path in sorted((common.VERIF / "corpus" / "C05").glob("*.ir")):
+        with open(path) as f:
+            m = Reader().read(f)
+        ents = [irgen.Entry(fn.name, [a.ty for a in fn.arguments], fn.return_ty if isinstance(fn, ir.Function) else None, True)
+                for fn in m.functions if not fn.arguments]
+        exts = [(x.name, list(x.argument_types), getattr(x, "return_ty", None)) for x in m.externals
+                if isinstance(x, ir.ExternalSubRoutine)]
+        out.append((irgen.Generated(m, ents, exts), [(e, []) for e in ents], "corpus:" + path.name))
+    return out
 
 
 def irser_text(g):
